@@ -15,7 +15,7 @@ type entT struct {
 }
 
 type pools struct {
-	ints, structs, mvals, funcs, funcps, meths, maps []string
+	ints, structs, mvals, funcs, funcps, meths, maps, fvars []string
 	multis                                     map[string]bool // names declared by `var a, b = f()`
 }
 
@@ -32,6 +32,12 @@ func genArg(r *rand.Rand, p *pools, profile string) (argT, bool) {
 	// what needs two things to exist already is rare in the table below: draw it first now and then
 	// (references to methods are dependencies since the repair of F14)
 	switch {
+	case len(p.fvars) > 0 && r.Intn(4) == 0:
+		// a package-level function value: called, or (control) passed without being called
+		if r.Intn(10) < 7 {
+			return argT{K: "callfv", V: pickS(r, p.fvars)}, true
+		}
+		return argT{K: "passfv", V: pickS(r, p.fvars)}, true
 	case len(p.structs) > 0 && len(p.meths) > 0 && r.Intn(4) == 0:
 		if r.Intn(5) < 3 {
 			return argT{K: "method", V: pickS(r, p.structs), W: pickS(r, p.meths)}, true
@@ -144,7 +150,7 @@ func genCase(r *rand.Rand, profile, order string, cycle bool, size int, mode str
 	p := &pools{multis: map[string]bool{}}
 	pure := map[string]bool{}
 	var ents []entT
-	nInt, nZ, nT, nMv, nF, nG, nM, nX, nP, nU, nMp, nV := 0, 0, 0, 0, 0, 0, 0, 0, 0, 0, 0, 0
+	nInt, nZ, nT, nMv, nF, nG, nM, nX, nP, nU, nMp, nV, nFv := 0, 0, 0, 0, 0, 0, 0, 0, 0, 0, 0, 0, 0
 	letter := func() string {
 		s := string(rune('a' + nInt%26))
 		if nInt >= 26 {
@@ -184,6 +190,17 @@ func genCase(r *rand.Rand, profile, order string, cycle bool, size int, mode str
 				ents = append(ents, entT{kind: "commaok", v: v})
 				p.ints = append(p.ints, a)
 			}
+			continue
+		}
+		if r.Intn(100) < 11 {
+			// a variable of function type initialised by a function literal whose body refers to what
+			// exists so far (after the shuffle: to variables declared later), directly or through
+			// functions, methods and other such variables (seeded change C15-3)
+			n := fmt.Sprintf("fv%d", nFv)
+			nFv++
+			v := &varT{Kind: "funcvar", Names: []string{n}, Args: [][]argT{genArgs(r, p, profile, 2)}}
+			ents = append(ents, entT{kind: "funcvar", v: v})
+			p.fvars = append(p.fvars, n)
 			continue
 		}
 		if profile == "names" {
@@ -300,7 +317,7 @@ func genCase(r *rand.Rand, profile, order string, cycle bool, size int, mode str
 		// one reference against the true order: from an early int variable (or a function, or a method) to a later int variable
 		var early []int
 		for i, e := range ents {
-			if (e.kind == "int" || (profile != "direct" && (e.kind == "func" || e.kind == "meth"))) && i < len(ents)-1 {
+			if (e.kind == "int" || e.kind == "funcvar" || (profile != "direct" && (e.kind == "func" || e.kind == "meth"))) && i < len(ents)-1 {
 				early = append(early, i)
 			}
 		}
@@ -312,7 +329,12 @@ func genCase(r *rand.Rand, profile, order string, cycle bool, size int, mode str
 					later = append(later, e.v.Names[0])
 				}
 			}
-			if len(later) > 0 {
+			if ents[i].kind == "funcvar" && r.Intn(3) == 0 {
+				// var fv0 = func() int { return 1 + usefn(fv0) }: refers to itself (an initialization cycle
+				// for the toolchain). Not `fv0()`: were the package accepted (a mutated interpreter), running it
+				// would recurse until the Go stack overflows, which no recover can catch.
+				ents[i].v.Args[0] = append(ents[i].v.Args[0], argT{K: "passfv", V: ents[i].v.Names[0]})
+			} else if len(later) > 0 {
 				a := argT{K: "var", V: pickS(r, later)}
 				if ents[i].v != nil {
 					ents[i].v.Args[0] = append(ents[i].v.Args[0], a)
